@@ -512,10 +512,14 @@ class NumberMapper(Mapper):
         value = self.value
         params = {
             "type": "number",
-            "multiplesOf": value.multiplesOf,
+            "multiplesOf": abs(value.multiplesOf)
+            if value.multiplesOf
+            else value.multiplesOf,
             "minimum": get_min(value),
             "maximum": get_max(value),
-            "exclusiveMaximum": value.exclusiveMaximum,
+            "exclusiveMaximum": value.exclusiveMaximum
+            if value.maximum is not None
+            else None,
         }
         return {k: v for k, v in params.items() if v is not None}
 
